@@ -22,6 +22,7 @@ partial def tyOfMich : Mich → Option Ty
   | .prim "never" [] _ => some .never
   | .prim "key_hash" [] _ => some .keyHash
   | .prim "key" [] _ => some .key
+  | .prim "signature" [] _ => some .signature
   | .prim "operation" [] _ => some .operation
   | .prim "contract" [a] _ => (tyOfMich a).map .contract
   | .prim "option" [a] _ => (tyOfMich a).map .option
@@ -48,6 +49,7 @@ partial def tyToMich : Ty → Mich
   | .never => .prim "never" [] []
   | .keyHash => .prim "key_hash" [] []
   | .key => .prim "key" [] []
+  | .signature => .prim "signature" [] []
   | .operation => .prim "operation" [] []
   | .contract a => .prim "contract" [tyToMich a] []
   | .option a => .prim "option" [tyToMich a] []
@@ -82,6 +84,7 @@ mutual
     | .chainId, .str s => some (.atom .chainId (codes s))
     | .keyHash, .str s => some (.atom .keyHash (codes s))
     | .key, .str s => some (.atom .key (codes s))
+    | .signature, .str s => some (.atom .signature (codes s))
     | .option _, .prim "None" [] _ => none   -- needs the type: handled below
     | .option t, .prim "Some" [x] _ => (valOfMich t x).map .some
     | .or l r, .prim "Left" [x] _ => (valOfMich l x).map fun v => .left v r
@@ -209,6 +212,7 @@ mutual
     -- `SELF %ep` arrives elaborated: the harness writes the type of that entrypoint of the parameter as an argument
     | .prim "SELF" [t] an => (tyOfMich t).map fun t => .SELF (annotName "default" an) t
     | .prim "PACK" [] _ => some .PACK
+    | .prim "CHECK_SIGNATURE" [] _ => some .CHECK_SIGNATURE
     | .prim "UNPACK" [t] _ => (tyOfMich t).map .UNPACK
     | .prim "TRANSFER_TOKENS" [] _ => some .TRANSFER_TOKENS
     | .prim "SET_DELEGATE" [] _ => some .SET_DELEGATE
@@ -290,6 +294,7 @@ mutual
     | .CONTRACT t ep => .prim "CONTRACT" [tyToMich t] ["%" ++ uncodes ep]
     | .SELF ep t => .prim "SELF" [tyToMich t] ["%" ++ uncodes ep]
     | .PACK => .prim "PACK" [] []
+    | .CHECK_SIGNATURE => .prim "CHECK_SIGNATURE" [] []
     | .UNPACK t => .prim "UNPACK" [tyToMich t] []
     | .TRANSFER_TOKENS => .prim "TRANSFER_TOKENS" [] [] | .SET_DELEGATE => .prim "SET_DELEGATE" [] []
     | .EMIT tag t => .prim "EMIT" [tyToMich t] (if tag.isEmpty then [] else ["%" ++ uncodes tag])
